@@ -28,7 +28,7 @@ Definition main_ape_run : list string :=
    "if[args.plot_full_ref] copy.deepcopy(traj_ref)";
    "common.downsample_or_filter(args, traj_ref, traj_est)";
    "if[isinstance(traj_ref, PoseTrajectory3D) and isinstance(traj_est, PoseTrajectory3D)] if[args.t_start or args.t_end] traj_ref.reduce_to_time_range(args.t_start, args.t_end)";
-   "if[isinstance(traj_ref, PoseTrajectory3D) and isinstance(traj_est, PoseTrajectory3D)] sync.associate_trajectories(traj_ref, traj_est, args.t_max_diff, -args.t_offset, first_name=ref_name, snd_name=est_name)";
+   "if[isinstance(traj_ref, PoseTrajectory3D) and isinstance(traj_est, PoseTrajectory3D)] sync.associate_trajectories(traj_ref, traj_est, args.t_max_diff, args.t_offset, first_name=ref_name, snd_name=est_name)";
    "ape(traj_ref=traj_ref, traj_est=traj_est, pose_relation=pose_relation, align=args.align, correct_scale=args.correct_scale, n_to_align=args.n_to_align, align_origin=args.align_origin, ref_name=ref_name, est_name=est_name, change_unit=change_unit, project_to_plane=plane)";
    "if[args.save_results] file_interface.save_res_file(args.save_results, result, confirm_overwrite=not args.no_warnings)"].
 
